@@ -9,7 +9,7 @@ PID = 'C04'
 STATS = G.STATS
 KIND = {'curve': 'c', 'surface': 's', 'volume': 'v'}
 PARTIAL = [
-    "insert_preserves_surface / insert_preserves_volume: the Lean shape-preservation theorem is proved for curves (any degree, multiplicity, count, span, parameter); for surfaces and volumes the per-direction application (gather / scatter of iso-curves) is in the model and compared with the code, but the lifting theorem is not stated yet",
+    "volumes: the Lean shape-preservation theorem is proved for curves (function level, sequences) and for surfaces in both directions; for volumes the per-direction application is in the model and compared with the code, but the lifting theorem is not stated",
     "the tie between the list program A5.1 (`temp` triangle with in-place updates, edge writes) and the model's index-by-index output is the correspondence, not a Lean theorem",
 ]
 
